@@ -213,8 +213,8 @@ Proof.
     destruct (negb (forallb _ _)) eqn:Ha; [discriminate|].
     destruct (IH _ _ _ _ _ _ H q Hq) as [G|G]; [|auto].
     apply in_app_or in G. destruct G as [G|G]; [|auto]. right.
-    apply in_map_iff in G. destruct G as [f [<- Hf]]. unfold group in Hf. apply filter_In in Hf. destruct Hf as [Hf _].
+    apply in_map_iff in G. destruct G as [f [<- Hg]]. assert (Hf := Hg). unfold group in Hf. apply filter_In in Hf. destruct Hf as [Hf Ht].
     apply negb_false_iff in Ha. rewrite forallb_forall in Ha.
-    repeat split; auto. { apply Ha. unfold group. apply filter_In. split; auto. apply filter_In in Hf. tauto. }
-    exists f. split; [|reflexivity]. apply filter_In in Hf. tauto.
+    split; [reflexivity|]. split; [reflexivity|]. split; [reflexivity|]. split; [reflexivity|]. split; [apply Ha; exact Hg|].
+    exists f; auto.
 Qed.
